@@ -54,7 +54,14 @@ def build_exe(stage):
         built = stage.built = {}
     if "c03" in built:
         return built["c03"]
-    objs = [stage.compile(os.path.join(VERIF, "harness", "c03.cc"), extra=["-fno-sanitize=vptr"])]
+    # the body of clientSetKeepaliveFlag() from the staged client_side.cc (that file cannot be linked into a unit harness)
+    src = stage.read("src/client_side.cc")
+    mt = re.search(r"\nvoid\nclientSetKeepaliveFlag\(ClientHttpRequest \* ?http\)\n\{\n.*?\n\}\n", src, re.S)
+    if not mt:
+        raise RuntimeError("clientSetKeepaliveFlag() not found in client_side.cc")
+    with open(os.path.join(stage.work, "c03_keepalive.inc"), "w") as f:
+        f.write("// cut from src/client_side.cc by props/C03.py\nstatic" + mt.group(0))
+    objs = [stage.compile(os.path.join(VERIF, "harness", "c03.cc"), extra=["-fno-sanitize=vptr", "-I" + stage.work])]
     objs += stage.compile_many(UNDER_TEST, extra=["-fno-sanitize=vptr"])
     exe = stage.link_like("tests/testHttpRequest", objs, os.path.join(stage.work, "c03"),
                           drop=("HttpHeader.o", "HttpHeaderTools.o", "StrList.o", "HttpRequest.o", "mime_header.o", "tests/testHttpRequestMethod.o"))
@@ -442,7 +449,7 @@ def judge_d(data, impl):
                 return "squid waits for more %s bytes of message %d where the strict parser sees a complete message ending at %d" % ("body" if kind == "body" else "head", k, r.end)
             if kind == "body" and k >= len(msgs) and fin[0] == "reject" and not prev_close:
                 return "head of message %d accepted (body pending) but the strict parser rejects it: %s" % (k, fin[1])
-        elif kind in ("rej", "end", "connect"):
+        elif kind in ("rej", "end", "connect", "closing"):
             pass
         elif kind.startswith("abort") or kind.startswith("throw") or kind == "bad-op":
             return "no usable observation: " + impl[:80]
